@@ -24,7 +24,7 @@ func optZ(p *int64) string {
 // Interner for booking ids of one case.
 type Bks struct{ in *lib.Interner }
 
-func NewBks() *Bks               { return &Bks{in: lib.NewInterner()} }
+func NewBks() *Bks                { return &Bks{in: lib.NewInterner()} }
 func (b *Bks) ID(s string) uint64 { return b.in.ID(s) }
 func (b *Bks) Table() []string    { return b.in.Strings() }
 func (b *Bks) Known(s string) (uint64, bool) {
